@@ -1,4 +1,5 @@
 import VyxalModel.Lemmas.ListLit
+import VyxalModel.Lemmas.NamedFn
 /-!
 # The induction: fuel outside, program structure inside
 
@@ -353,8 +354,18 @@ theorem simS (cfg : Cfg) (env : TEnv) (hE : cfg.elements = env.elements) (n : Na
             unfold execTok
             simpa using hr
           exact sim_tok cfg env hE n (fun m hm => ih m (by omega)) ⟨.general, lamOpKey kind⟩ hf.2 a hta hR1 sg σ' htok
-  | .fnCall _, hf, _, _, _, _ => by simp [fragS] at hf
-  | .fnDef _ _ _, hf, _, _, _, _ => by simp [fragS] at hf
+  | .fnCall name, hf, k, code, k', ht => by
+      simp [transpileS] at ht; obtain ⟨h1, _⟩ := ht; subst h1
+      exact sim_fnCall cfg n ih name
+  | .fnDef name params body, hf, k, code, k', ht => by
+      simp only [fragS] at hf
+      simp only [transpileS] at ht
+      cases hb : transpileL env k body with
+      | error e => simp [hb] at ht
+      | ok r =>
+        obtain ⟨b, k2⟩ := r
+        simp [hb] at ht; obtain ⟨h1, _⟩ := ht; subst h1
+        exact sim_fnDef cfg n name params body (orPass b) ⟨k, b, k2, hb, Or.inr rfl⟩ hf
   | .listS items, hf, k, code, k', ht => by
       simp only [fragS] at hf
       simp only [transpileS] at ht
